@@ -29,13 +29,8 @@ func (d TaskDef) Equals(otherDef TaskDef) bool {
 	if d.AllowFailure != otherDef.AllowFailure {
 		return false
 	}
-	if len(d.Env) != len(otherDef.Env) {
+	if !envEquals(d.Env, otherDef.Env) {
 		return false
-	}
-	for k, v := range d.Env {
-		if otherDef.Env[k] != v {
-			return false
-		}
 	}
 	return true
 }
@@ -117,13 +112,8 @@ func (d PipelineDef) Equals(otherDef PipelineDef) bool {
 	if d.RetentionCount != otherDef.RetentionCount {
 		return false
 	}
-	if len(d.Env) != len(otherDef.Env) {
+	if !envEquals(d.Env, otherDef.Env) {
 		return false
-	}
-	for k, v := range d.Env {
-		if otherDef.Env[k] != v {
-			return false
-		}
 	}
 	if len(d.Tasks) != len(otherDef.Tasks) {
 		return false
@@ -231,6 +221,20 @@ func (kv KeyValue) String() string {
 	}
 
 	return strings.Join(result, ", ")
+}
+
+// envEquals compares two environment maps. A missing key is not the same as a key with an empty value.
+func envEquals(e1 map[string]string, e2 map[string]string) bool {
+	if len(e1) != len(e2) {
+		return false
+	}
+	for k, v := range e1 {
+		otherV, exists := e2[k]
+		if !exists || otherV != v {
+			return false
+		}
+	}
+	return true
 }
 
 func strSliceEquals(s1 []string, s2 []string) bool {
